@@ -18,6 +18,9 @@ ALPHA = ['\\', '{', '}', '$', '&', '\n', '\r', '#', '^', '_', '\x00', ' ', '\t',
          '[', ']', '(', ')', '*', '|', '<', 'left', 'big', 'Bigg', 'langle', 'item', 'é', 'a*', '@',
          'left\\langle', 'Bigg\\rceil', '\ud83d', '\ude02']      # named delimiters; a high and a low surrogate
 
+CORE = ['\\', '{', '}', '$', '\n', '\r', '\x00', ' ', 'a', '.', '%', '\x7f', '[', ']', '(', '*', '|', 'left', 'big', 'langle',
+        'a*', '\ud83d', '\ude02', '&']
+
 
 def check_string(s, sub, res=None, count=True):
     from TexSoup.category import categorize
@@ -90,8 +93,9 @@ def check_string(s, sub, res=None, count=True):
 def plan(ctx):
     nshard = 64
     cps = [('cp', i, nshard) for i in range(nshard)]
-    L = ctx.pick(4, 5)
-    strs = [('str', L, i, 64) for i in range(64)]
+    # quick: the full alphabet up to 3 symbols and a 24-symbol core up to 4; thorough: one symbol more each
+    strs = [('str', ctx.pick(3, 4), i, 64, 'full') for i in range(64)] + \
+           [('str', ctx.pick(4, 5), i, 64, 'core') for i in range(64)]
     rnd = [('rnd', ctx.pick(1500, 30000), i) for i in range(16)]
     return [('shard_codepoints', cps), ('shard_strings', strs), ('shard_random', rnd)]
 
@@ -131,13 +135,14 @@ def shard_codepoints(ctx, shard):
 
 
 def shard_strings(ctx, shard):
-    _, L, idx, nshard = shard
+    _, L, idx, nshard, which = shard
     H.import_repo()
     res = H.Result()
     seen = set()
     total = 0
+    alpha = ALPHA if which == 'full' else CORE
     for d in range(0, L + 1):
-        for count, tup in enumerate(itertools.product(ALPHA, repeat=d)):
+        for count, tup in enumerate(itertools.product(alpha, repeat=d)):
             if count % nshard != idx:
                 continue
             s = ''.join(tup)
@@ -153,7 +158,7 @@ def shard_strings(ctx, shard):
                 nt = True
             total += 1
             res.case(s, nt, sample=s, classes=['len%d' % d])
-    res.exhaustive['strings_over_%d_symbols_len<=%d(this run)' % (len(ALPHA), L)] = total
+    res.exhaustive['strings_over_%d_symbols_len<=%d(this run)' % (len(alpha), L)] = total
     return res
 
 
